@@ -333,6 +333,21 @@ func (G *gen) messages(fx *fixture) {
 			h.OfflineAddr = &zeroAddr
 		}},
 		{"all-flags", func(h *types.ProposedHeader) { h.Flags = 0xffffffff }},
+		{"all-flags-but-offline", func(h *types.ProposedHeader) {
+			h.Flags = 0xffffffff &^ uint32ToFlag(uint32(types.OfflinePropose|types.OfflineCommit))
+		}},
+		{"flag-new-genesis", func(h *types.ProposedHeader) { h.Flags |= types.NewGenesis }},
+		{"flag-new-genesis-upgrade", func(h *types.ProposedHeader) { h.Flags |= types.NewGenesis; h.Upgrade = 11 }},
+		{"flag-snapshot", func(h *types.ProposedHeader) { h.Flags |= types.Snapshot }},
+		{"flag-identity-update", func(h *types.ProposedHeader) { h.Flags ^= types.IdentityUpdate }},
+		{"flag-validation-finished", func(h *types.ProposedHeader) { h.Flags |= types.ValidationFinished }},
+		{"flag-flip-lottery", func(h *types.ProposedHeader) { h.Flags ^= types.FlipLotteryStarted }},
+		{"flag-short-session", func(h *types.ProposedHeader) { h.Flags ^= types.ShortSessionStarted }},
+		{"flag-long-session", func(h *types.ProposedHeader) { h.Flags ^= types.LongSessionStarted }},
+		{"flag-after-long", func(h *types.ProposedHeader) { h.Flags ^= types.AfterLongSessionStarted }},
+		{"offline-propose-god", func(h *types.ProposedHeader) { h.Flags |= types.OfflinePropose; h.OfflineAddr = &w.Addrs[0] }},
+		{"upgrade-10", func(h *types.ProposedHeader) { h.Upgrade = 10 }},
+		{"upgrade-12", func(h *types.ProposedHeader) { h.Upgrade = 12 }},
 		{"upgrade-set", func(h *types.ProposedHeader) { h.Upgrade = 11 }},
 		{"upgrade-max", func(h *types.ProposedHeader) { h.Upgrade = 0xffffffff }},
 		{"fee-nil", func(h *types.ProposedHeader) { h.FeePerGas = nil }},
@@ -766,6 +781,8 @@ func effectiveLen(frame []byte) int {
 	}
 	return len(frame)
 }
+
+func uint32ToFlag(v uint32) types.BlockFlag { return types.BlockFlag(v) }
 
 func dna(n int64) *big.Int { return new(big.Int).Mul(big.NewInt(n), common.DnaBase) }
 
